@@ -725,6 +725,16 @@ class TrajectoryStore:
                     'data fields'
                 )
 
+        # Once the store is linked to files, the field sets are fixed by
+        # those files, whether or not a previously added trajectory is still
+        # in the cache.
+        if self.nc_linked:
+            if trajectory._fieldsets != set(self._nc.keys()):
+                raise ValueError(
+                    'All trajectories in a TrajectoryStore must have the same '
+                    'data fields'
+                )
+
         # Required fields must have values. Check this before touching any
         # state, so that a rejected trajectory leaves the store exactly as it
         # was (it used to be detected half-way through writing).
